@@ -4,11 +4,21 @@
 
   Layers
    1. pure linear algebra over any commutative ring / over ℝ with `Real.sqrt` (all sizes, all ranks):
-      the SVD+QR fallback returns a factor of Σ; exact residual identity for approximate contracts;
+      the SVD+QR fallback returns a factor of Σ; exact residual identity for approximate contracts.
+      `fallback_factor` assumes `Σ = U diag(E) Uᵀ`, which is NOT what `svd` promises; `fallback_factor_of_svd`
+      assumes what it does promise — `Σ = U diag(E) Vᵀ`, `UᵀU = VᵀV = 1`, `E ≥ 0` — plus `Σ` symmetric positive
+      semi-definite, and `svd_is_eigendecomposition` (Proofs/C17Svd.lean: uniqueness of the PSD square root,
+      Mathlib's functional calculus on real matrices) proves `U diag(E) Vᵀ = U diag(E) Uᵀ` from these for
+      every size and rank; an instance with singular Σ and `V ≠ U` shows the hypotheses are satisfiable
+      without `V = U`;
    2. the executable list model `C17.sampleFactor` (Model/C17.lean) with scipy's `cholesky`, `svd`,
       `qr` and numpy's `sqrt` as oracles constrained only by their contracts — including the
       `overwrite_a` quirk: the theorem needs "the buffer still holds Σ when `svd` reads it", which
-      `overwrite_a = False` guarantees and `overwrite_a = True` does not (counter-model given);
+      `overwrite_a = False` guarantees and `overwrite_a = True` does not (counter-model given).
+      `sampleFactor_reproduces` takes `U diag(E) Uᵀ = input` as the svd hypothesis;
+      `sampleFactor_reproduces_of_svd` replaces it by the real contract (the oracle returns only `(U, E)` as
+      the code discards `Vᵀ`, so: `UᵀU = 1` and SOME orthogonal `V` has `input = U diag(E) Vᵀ`) plus
+      "Σ symmetric, `xᵀ Σ x ≥ 0` for rational `x`"; `E ≥ 0` follows from `sqrt` squaring back;
    3. bridge: the driver's list arithmetic (`mulT`, `transpose`, `sub`, `residual`) is Mathlib's matrix
       arithmetic, so "residual ≤ t" printed by the driver is a statement about `L * Lᵀ - Σ`;
    4. use of the factor: mean and covariance of `m + L z` (any linear expectation), and of the weighted
@@ -16,6 +26,7 @@
 -/
 import Model.C17
 import Proofs.C17
+import Proofs.C17Svd
 import Mathlib.Data.Matrix.Mul
 import Mathlib.Data.Matrix.Diagonal
 import Mathlib.Data.Matrix.Basic
@@ -89,6 +100,50 @@ example : ∃ (S U : Matrix (Fin 2) (Fin 2) ℝ) (E : Fin 2 → ℝ) (Q R : Matr
   · simp only [Matrix.one_mul, diagonal_transpose]
     congr 1; funext i; fin_cases i <;> simp
   · simp
+  · intro h
+    have := congrFun (congrFun h 0) 0
+    simp at this
+
+/-- What `scipy.linalg.svd` really promises is `Σ = U diag(E) Vᵀ` with `U`, `V` orthogonal and `E ≥ 0`; the
+    code throws `V` away.  For a symmetric positive semi-definite `Σ` that loses nothing:
+    `U diag(E) Vᵀ = U diag(E) Uᵀ` (uniqueness of the PSD square root of `Σ² = U diag(E²) Uᵀ`), every size,
+    every rank — `V = U` itself need NOT hold when `Σ` is singular (example below). -/
+theorem svd_is_eigendecomposition {n : Type*} [Fintype n] [DecidableEq n]
+    (S U V : Matrix n n ℝ) (E : n → ℝ)
+    (hS : S.PosSemidef) (hsvd : S = U * diagonal E * Vᵀ)
+    (hU : Uᵀ * U = 1) (hV : Vᵀ * V = 1) (hE : ∀ i, 0 ≤ E i) :
+    S = U * diagonal E * Uᵀ :=
+  svd_symm_of_posSemidef S U V E hS hsvd hU hV hE
+
+/-- `fallback_factor` from the SVD contract as scipy states it: `Σ` symmetric PSD, `Σ = U diag(E) Vᵀ`,
+    `UᵀU = VᵀV = 1`, `E ≥ 0`, `(U diag(√E))ᵀ = Q R`, `QᵀQ = 1`  ⟹  `L = Rᵀ` satisfies `L Lᵀ = Σ`.
+    `V` does not occur in the conclusion: the code never uses it. -/
+theorem fallback_factor_of_svd {n m : Type*} [Fintype n] [Fintype m] [DecidableEq n] [DecidableEq m]
+    (S U V : Matrix n n ℝ) (E : n → ℝ) (Q : Matrix n m ℝ) (R : Matrix m n ℝ)
+    (hS : S.PosSemidef) (hsvd : S = U * diagonal E * Vᵀ)
+    (hU : Uᵀ * U = 1) (hV : Vᵀ * V = 1) (hE : ∀ i, 0 ≤ E i)
+    (hQR : (U * diagonal (fun i => Real.sqrt (E i)))ᵀ = Q * R) (hQ : Qᵀ * Q = 1) :
+    Rᵀ * Rᵀᵀ = S :=
+  fallback_factor S U E Q R (svd_symm_of_posSemidef S U V E hS hsvd hU hV hE) hE hQR hQ
+
+/-- non-vacuity of `fallback_factor_of_svd` with a SINGULAR `Σ` and `V ≠ U`:
+    Σ = diag(1, 0) = 1 · diag(1, 0) · diag(1, −1)ᵀ, Q = 1, R = diag(1, 0). -/
+example : ∃ (S U V : Matrix (Fin 2) (Fin 2) ℝ) (E : Fin 2 → ℝ) (Q R : Matrix (Fin 2) (Fin 2) ℝ),
+    S.PosSemidef ∧ S = U * diagonal E * Vᵀ ∧ Uᵀ * U = 1 ∧ Vᵀ * V = 1 ∧ (∀ i, 0 ≤ E i) ∧
+    (U * diagonal (fun i => Real.sqrt (E i)))ᵀ = Q * R ∧ Qᵀ * Q = 1 ∧ U ≠ V ∧ S.det = 0 ∧ S ≠ 0 := by
+  have hE : ∀ i : Fin 2, 0 ≤ (![1, 0] : Fin 2 → ℝ) i := by intro i; fin_cases i <;> simp
+  refine ⟨diagonal ![1, 0], 1, diagonal ![1, -1], ![1, 0], 1, diagonal ![1, 0],
+    PosSemidef.diagonal hE, ?_, by simp, ?_, hE, ?_, by simp, ?_, by simp, ?_⟩
+  · rw [Matrix.one_mul, diagonal_transpose, diagonal_mul_diagonal]
+    congr 1; funext i; fin_cases i <;> simp
+  · rw [diagonal_transpose, diagonal_mul_diagonal, ← diagonal_one]
+    congr 1; funext i; fin_cases i <;> simp
+  · simp only [Matrix.one_mul, diagonal_transpose]
+    congr 1; funext i; fin_cases i <;> simp
+  · intro h
+    have := congrFun (congrFun h 1) 1
+    simp at this
+    norm_num at this
   · intro h
     have := congrFun (congrFun h 0) 0
     simp at this
@@ -182,6 +237,52 @@ theorem sampleFactor_reproduces (o : Oracles) (ov : Bool) (sigma : Mat) (n : ℕ
       hsvd hs hQR' hQ
     rw [this, hA]
 
+/-- `sampleFactor_reproduces` from the SVD contract as scipy states it.  The model's `svd` oracle returns
+    only `(U, E)` — the code discards `Vᵀ` — so the contract is "SOME orthogonal `V` has
+    `input = U diag(E) Vᵀ`", together with `UᵀU = 1`.  `E ≥ 0` is not a separate hypothesis: it follows from
+    `sqrt` squaring back.  The covariance is assumed symmetric positive semi-definite, stated on rational
+    vectors (equivalent to real positive semi-definiteness, `posSemidef_toReal_of_rat`).  The hypothesis
+    `U diag(E) Uᵀ = input` of `sampleFactor_reproduces` is then a theorem, not an assumption. -/
+theorem sampleFactor_reproduces_of_svd (o : Oracles) (ov : Bool) (sigma : Mat) (n : ℕ)
+    (hσ : isShape n n sigma = true)
+    (hsymm : (toM n n sigma)ᵀ = toM n n sigma)
+    (hpsd : ∀ x : Fin n → ℚ, 0 ≤ x ⬝ᵥ (toM n n sigma *ᵥ x))
+    (hchol : ∀ l, (o.chol sigma).factor = some l →
+        isShape n n l = true ∧ toM n n l * (toM n n l)ᵀ = toM n n sigma)
+    (hbuf : ov = true → (o.chol sigma).factor = none → (o.chol sigma).buffer = sigma)
+    (hfb : (o.chol sigma).factor = none →
+       let A := svdInput ov sigma (o.chol sigma)
+       let u := (o.svd A).1
+       let e := (o.svd A).2
+       let b := fallbackB o u e
+       isShape n n u = true ∧ e.length = n ∧
+       (toM n n u)ᵀ * toM n n u = 1 ∧
+       (∃ V : Matrix (Fin n) (Fin n) ℚ, Vᵀ * V = 1 ∧
+         toM n n A = toM n n u * diagonal (vec n e) * Vᵀ) ∧
+       (∀ x ∈ e, o.sqrt x * o.sqrt x = x) ∧
+       isShape n n (o.qrR (transpose n b)) = true ∧
+       ∃ Q : Matrix (Fin n) (Fin n) ℚ, Qᵀ * Q = 1 ∧
+         toM n n (transpose n b) = Q * toM n n (o.qrR (transpose n b))) :
+    isShape n n (sampleFactor o ov sigma) = true ∧
+      toM n n (sampleFactor o ov sigma) * (toM n n (sampleFactor o ov sigma))ᵀ = toM n n sigma := by
+  refine sampleFactor_reproduces o ov sigma n hσ hchol hbuf fun hf => ?_
+  obtain ⟨hu, he, hU, ⟨V, hV, hsvd⟩, hsq, hR, hQ⟩ := hfb hf
+  have hA : svdInput ov sigma (o.chol sigma) = sigma := by
+    unfold svdInput
+    cases ov with
+    | false => simp
+    | true => simpa using hbuf rfl hf
+  refine ⟨hu, he, ?_, hsq, hR, hQ⟩
+  have hE : ∀ i : Fin n, 0 ≤ vec n (o.svd (svdInput ov sigma (o.chol sigma))).2 i := by
+    intro i
+    have hi : (i : ℕ) < (o.svd (svdInput ov sigma (o.chol sigma))).2.length := by omega
+    simp only [vec, List.getD_eq_getElem?_getD, List.getElem?_eq_getElem hi, Option.getD_some]
+    rw [← hsq _ (List.getElem_mem hi)]
+    exact mul_self_nonneg _
+  have hS : (toReal (toM n n (svdInput ov sigma (o.chol sigma)))).PosSemidef := by
+    rw [hA]; exact posSemidef_toReal_of_rat _ hsymm hpsd
+  exact (svd_symm_of_posSemidef_rat _ _ V _ hS hsvd hU hV hE).symm
+
 /-- The same in the terms the driver prints: under the hypotheses of `sampleFactor_reproduces` the exact
     residual `max |L Lᵀ − Σ|` of the model's output is 0. -/
 theorem sampleFactor_residual_zero (o : Oracles) (ov : Bool) (sigma : Mat) (n : ℕ)
@@ -203,6 +304,49 @@ example : (exampleOracles.chol [[9, 12], [12, 16]]).factor = none ∧
     fin_cases i <;> fin_cases j <;>
       simp [exampleOracles, toM, entry, vec, svdInput, Matrix.mul_apply, Fin.sum_univ_two,
         Matrix.diagonal_apply] <;> norm_num
+  · intro x hx
+    simp [exampleOracles] at hx
+    rcases hx with rfl | rfl
+    · simp [exampleOracles]; norm_num
+    · simp [exampleOracles]
+
+/-- non-vacuity of `sampleFactor_reproduces_of_svd` on the fallback branch with a singular covariance and a
+    right factor `V ≠ U`: Σ = [[9,12],[12,16]] = U diag(25, 0) Vᵀ with U = [[3/5,4/5],[4/5,−3/5]] (what
+    `exampleOracles.svd` returns) and V = [[3/5,−4/5],[4/5,3/5]]; `xᵀ Σ x = (3x₀ + 4x₁)² ≥ 0`. -/
+example : (exampleOracles.chol [[9, 12], [12, 16]]).factor = none ∧
+    (∃ V : Matrix (Fin 2) (Fin 2) ℚ, Vᵀ * V = 1 ∧ V ≠ toM 2 2 (exampleOracles.svd [[9, 12], [12, 16]]).1 ∧
+      toM 2 2 [[9, 12], [12, 16]] = toM 2 2 (exampleOracles.svd [[9, 12], [12, 16]]).1 *
+        diagonal (vec 2 (exampleOracles.svd [[9, 12], [12, 16]]).2) * Vᵀ) ∧
+    residual (sampleFactor exampleOracles false [[9, 12], [12, 16]]) [[9, 12], [12, 16]] = 0 := by
+  have hV : (!![3/5, -4/5; 4/5, 3/5] : Matrix (Fin 2) (Fin 2) ℚ)ᵀ * !![3/5, -4/5; 4/5, 3/5] = 1 := by
+    ext i j
+    fin_cases i <;> fin_cases j <;> simp [Matrix.mul_apply, Fin.sum_univ_two] <;> norm_num
+  have hsvd : toM 2 2 [[9, 12], [12, 16]] = toM 2 2 (exampleOracles.svd [[9, 12], [12, 16]]).1 *
+      diagonal (vec 2 (exampleOracles.svd [[9, 12], [12, 16]]).2) *
+        (!![3/5, -4/5; 4/5, 3/5] : Matrix (Fin 2) (Fin 2) ℚ)ᵀ := by
+    ext i j
+    fin_cases i <;> fin_cases j <;>
+      simp [exampleOracles, toM, entry, vec, Matrix.mul_apply, Fin.sum_univ_two,
+        Matrix.diagonal_apply] <;> norm_num
+  refine ⟨rfl, ⟨!![3/5, -4/5; 4/5, 3/5], hV, ?_, hsvd⟩, sampleFactor_residual_zero _ _ _ 2 (by decide)
+    (sampleFactor_reproduces_of_svd exampleOracles false _ 2 (by decide) ?_ ?_
+      (fun l h => by simp [exampleOracles] at h) (by simp)
+      (fun _ => ⟨by decide, by decide, ?_, ⟨!![3/5, -4/5; 4/5, 3/5], hV, hsvd⟩, ?_, by decide, 1,
+        by simp, by simp [exampleOracles]⟩))⟩
+  · intro h
+    have := congrFun (congrFun h 0) 1
+    simp [exampleOracles, toM, entry] at this
+    norm_num at this
+  · ext i j
+    fin_cases i <;> fin_cases j <;> simp [toM, entry]
+  · intro x
+    have : x ⬝ᵥ (toM 2 2 [[9, 12], [12, 16]] *ᵥ x) = (3 * x 0 + 4 * x 1) ^ 2 := by
+      simp [dotProduct, Matrix.mulVec, Fin.sum_univ_two, toM, entry]
+      ring
+    rw [this]; positivity
+  · ext i j
+    fin_cases i <;> fin_cases j <;>
+      simp [exampleOracles, toM, entry, svdInput, Matrix.mul_apply, Fin.sum_univ_two] <;> norm_num
   · intro x hx
     simp [exampleOracles] at hx
     rcases hx with rfl | rfl
